@@ -268,6 +268,11 @@ def instance_pool(ctx, cirq, rng):
     pool.append(('gen/circuit-op-expr-reps', cirq.CircuitOperation(cirq.FrozenCircuit(cirq.X(qs[0])), repetitions=sympy.Symbol('r') * 2 + 1, use_repetition_ids=False)))
     pool.append(('gen/duration-symbolic', cirq.Duration(nanos=sympy.Symbol('t'))))
     pool.append(('gen/wait-shapes', [cirq.WaitGate(cirq.Duration(nanos=2), num_qubits=2), cirq.WaitGate(cirq.Duration(nanos=2), qid_shape=(3,)), cirq.WaitGate(cirq.Duration(picos=sympy.Symbol('t')))]))
+    qa_ = cirq.LineQubit(0)
+    pool.append(('gen/tagged-empty', cirq.TaggedOperation(cirq.X(qa_))))
+    pool.append(('gen/tagged-nested', cirq.TaggedOperation(cirq.TaggedOperation(cirq.X(qa_), 'inner'), 'outer')))
+    pool.append(('gen/tagged-nested-circuit', cirq.Circuit(cirq.TaggedOperation(cirq.TaggedOperation(cirq.CZ(qa_, cirq.LineQubit(1)), 'inner'), 'outer'), cirq.TaggedOperation(cirq.H(qa_)))))
+    pool.append(('gen/tagged-controlled', cirq.TaggedOperation(cirq.X(qa_).with_classical_controls('k'), 't')))
     pool.append(('gen/noise-prepend', cirq.ConstantQubitNoiseModel(cirq.bit_flip(0.1), prepend=True)))
     pool.append(('gen/noise-append', cirq.ConstantQubitNoiseModel(cirq.amplitude_damp(0.2))))
     pool.append(('gen/noise-like', cirq.NoiseModel.from_noise_model_like(cirq.depolarize(0.05))))
@@ -407,6 +412,12 @@ def check_qid_order(ctx, cirq, rng):
             qids.append(cirq.LineQid(rng.randint(0, 3), rng.choice([2, 3, 4])))
         else:
             qids.append(cirq.GridQid(rng.randint(0, 2), rng.randint(0, 2), dimension=rng.choice([2, 3])))
+    # the same place written as a qubit and as a dimension-2 qid (equal values), also with negative and large coordinates
+    for _ in range(4):
+        r_, c_ = rng.choice([-1, -2, 0, 1, 2**61 - 1, -(2**61)]), rng.choice([-1, -2, 0, 3, 2**61 - 1])
+        qids += [cirq.GridQubit(r_, c_), cirq.GridQid(r_, c_, dimension=2)]
+        x_ = rng.choice([-1, -2, 0, 2, 2**61 - 1])
+        qids += [cirq.LineQubit(x_), cirq.LineQid(x_, dimension=2)]
     ctx.count('check', 'qid-order')
     ctx.case(['qids', [repr(q) for q in qids]], True)
     rep = {'lines': [{'qids': [repr(q) for q in qids]}], 'theorem_or_correspondence': 'total order consistent with equality'}
